@@ -19,13 +19,16 @@ pub type DeserializeResult<T> = Result<T, DeserializeError>;
 #[verifier::external_body]
 fn ext_deser_error() -> DeserializeError { unimplemented!() }
 
-// @trusted: R1 PythonVersion is only passed through
-#[verifier::external_body]
-#[derive(Clone, Copy)]
-pub struct PythonVersion { _p: core::marker::PhantomData<()> }
-
 pub struct Deserializer { pub _caches: Opaque }
-pub struct CodeObj { pub _fields: Opaque }
+impl Clone for PythonVersion {
+    // @trusted: derived Clone/Copy on PythonVersion
+    #[verifier::external_body]
+    fn clone(&self) -> (r: Self) ensures r == *self { unimplemented!() }
+}
+impl Copy for PythonVersion {}
+// @trusted: Option<u8> comparison `minor >= Some(n)` (None < Some(_))
+#[verifier::external_body]
+fn w_minor_ge(minor: Option<u8>, n: u8) -> (r: bool) ensures r == (minor matches Some(m) && m >= n) { minor >= Some(n) }
 
 impl Deserializer {
     // @trusted: str_cache.get: interning, returns a Str value (opaque)
@@ -41,13 +44,19 @@ impl Deserializer {
     { unimplemented!() }
 }
 
-impl CodeObj {
-    // @trusted: ASSUMED CALLEE CONTRACT CodeObj::from_bytes (codeobj.rs): on success it has consumed at least the leading type byte, and it never grows the input (its first statement checks and removes that byte; everything else goes through the reader functions verified here)
+impl Deserializer {
+    // @trusted: Deserializer::new creates empty interning caches
     #[verifier::external_body]
-    pub fn from_bytes(v: &mut Vec<u8>, python_ver: PythonVersion) -> (r: DeserializeResult<CodeObj>)
-        ensures r is Ok ==> final(v)@.len() < old(v)@.len(), final(v)@.len() <= old(v)@.len()
+    pub fn new() -> Deserializer { unimplemented!() }
+    // @trusted: ASSUMED CALLEE CONTRACT deserialize_locals (iterator zip over names/kinds: not expressible in Verus): returns Ok or Err, never grows the input. Its only panicking constructs (assert_eq!, unreachable!) were replaced by error returns in the repair; this is argued by reading, not proved
+    #[verifier::external_body]
+    pub fn deserialize_locals(&mut self, v: &mut Vec<u8>, python_ver: PythonVersion) -> (r: DeserializeResult<(Vec<Str>, Vec<Str>, Vec<Str>)>)
+        ensures final(v)@.len() <= old(v)@.len()
     { unimplemented!() }
 }
+// @trusted: `v.first() != Some(&x)`: true iff v is empty or its first byte differs from x
+#[verifier::external_body]
+fn w_first_ne(v: &Vec<u8>, x: u8) -> (r: bool) ensures r == (v@.len() == 0 || v@[0] != x) { v.first() != Some(&x) }
 
 // ---- std wrappers -----------------------------------------------------------------------------
 // @trusted: Vec::drain(..n).collect(): removes and returns the first n elements; PANICS if n > len (=> precondition)
@@ -104,6 +113,11 @@ fn w_value_from_code(c: CodeObj) -> (r: ValueObj) ensures r is Code { unimplemen
 // @trusted: R1 erg_common::Str abstracted by its UTF-8 bytes
 #[verifier::external_body]
 pub struct Str { _p: core::marker::PhantomData<()> }
+impl Clone for Str {
+    // @trusted: Str::clone returns an equal string
+    #[verifier::external_body]
+    fn clone(&self) -> (r: Self) ensures r.bytes() == self.bytes() { unimplemented!() }
+}
 impl Str {
     pub uninterp spec fn bytes(&self) -> Seq<u8>;
     // @trusted: str::is_ascii: true iff every byte is below 0x80
